@@ -104,6 +104,12 @@ CHECKS = {'C01': {'note': 'trusted: rustc MIR + trait resolution, PANIC_API/SAFE
                  'folded operands, untaken ?: branches, call argument blocks, macro bodies, f-string segments, match scrutinees / patterns / arms) the returned node reports the parameter set of every sub-program parsed on '
                  'that path; an identifier primary registers its own token text and nothing else registers names; the details travel unchanged into the Program; filter_from_bindings keeps a name iff it is not bound as '
                  'variable, function or macro. The evaluation-relevance criterion is a consequence of the superset property and is not separately decided.'},
+ 'C18': {'note': 'trusted: rustc MIR; symex summaries; match-pattern spans are exempt, as in the property',
+         'technique': 'symbolic execution: span-composition and look-ahead typestate over parser paths; symbolic scanner state transitions',
+         'text': 'Decides the disciplines behind exact spans: surrounding() is (min of starts, max of ends) under the derived lexicographic (line, column) order; on every builder path of every parse function the '
+                 'node span is composed from sub-tree spans and tokens the function itself consumed and includes the first and the last thing consumed, never an unconsumed look-ahead token; a tokenizer.location() that '
+                 'flows into a span is read while no look-ahead token is buffered; StringScanner::next moves (line, column) only with a returned character (+1 column, or +1 line and column 0) and not at end of input; '
+                 'a token span is (position before its first character, position after its last). Exactness on every layout and re-compiling the spanned text are not decided.'},
  'C19': {'note': 'trusted: serde_derive variant numbering; serde_json float codec',
          'technique': 'ADT/attribute rules over the serde closure',
          'text': 'Decides positional safety of every enum reachable from Program (no serialized variant after a skipped one), codec symmetry, float payload '
@@ -114,8 +120,7 @@ CHECKS = {'C01': {'note': 'trusted: rustc MIR + trait resolution, PANIC_API/SAFE
          'text': "Decides: string literals pass through an escape before being quoted, both call-argument arms undo the parser's reverse storage, no "
                  'undischarged panic edge in the translator, every grammar node has an IntoSqlBuilder impl. SQL re-parse equivalence is not decided.'}}
 
-NOT_APPLICABLE = {
- 'C18': 'span exactness depends on token positions at run time; the look-ahead typestate rule over the parser was designed but not built'}
+NOT_APPLICABLE = {}
 
 
 def main():
